@@ -5,6 +5,7 @@ from core import enc, q, dec_val
 from gen import SeqGen
 
 ID = "C11"
+HEAP_SUMMARY = True      # end every program with the reference-level observation (BB.Model.Heap vs id() walk)
 LEAN_MODULE = "BB.Properties.C11"
 QUICK_N = 120
 THOROUGH_N = 2500
